@@ -198,7 +198,7 @@ pub fn run(ctx: &mut Ctx) {
                 })
             })
         },
-        t.pick(600, 12_000),
+        t.pick(600, 40_000),
     );
 }
 
